@@ -112,13 +112,78 @@ def _hang(signum, frame):
     raise Hang("run() loops without yielding")
 
 
+# ------------------------------------------------------------------------------------------------
+# second tie (DESIGN 2.6): Scheduler.add_packet_to_queue, MultiQueueScheduler.put (RR, WRR), SP.put and the per-flow
+# sampling statements of Monitor.run translated from the tree under test on every run (vlib/translate.py, fail closed)
+# into coq/Gen/Extracted_mq.v / Extracted_schedmon.v; bridged to the SPut / SSample steps of Elem/SchedBase.v by
+# coq/Elem/SchedBridge.v, SchedMonBridge.v; obligations in Props/C12_BridgeMQ.v, C12_BridgeMon.v.  Residue: Monitor's `for flow_id in all_flows()` loop
+# itself (which flows, in which order) is not translated, only its body for one flow; self.total_packets (a sum over a
+# dict) is an observation.
+
+MQ_STATE = [("packets_received", "Z"), ("queue_count", "mapZ"), ("queue_byte_size", "mapZ")]
+MQ_CONS = [("FxToken", ""),                          # self.packets_available.put(True)
+           ("FxStorePut", "(k : Z)")]                # self.stores[k].put(packet)
+MQ_FX = [("self.packets_available.put(True)", "FxToken", []),
+         ("self.stores[_1].put(packet)", "FxStorePut", ["Z"])]
+MQ_READS = [("packet.flow_id", "flow_id", "Z"),
+            ("packet.size", "size", "Z"),
+            ("self.flow2class(flow_id)", "class_id", "Z"),
+            ("self.total_packets", "total_packets", "Z", "stale_on:queue_count")]   # sum(self.queue_count.values())
+MON_CONS = [("FxSize", "(f : Z) (n : Z)"),           # self.sizes[f].append(n)
+            ("FxByteSize", "(f : Z) (b : Z)")]       # self.byte_sizes[f].append(b)
+MON_FX = [("self.sizes[_1].append(_2)", "FxSize", ["Z", "Z"]),
+          ("self.byte_sizes[_1].append(_2)", "FxByteSize", ["Z", "Z"])]
+MON_READS = [("flow_id", "flow_id", "Z"),                                    # the loop variable
+             ("self.scheduler.size(flow_id)", "count", "Z"),
+             ("self.scheduler.byte_size(flow_id)", "bytes", "Z"),
+             ("self.service_included", "service_included", "bool"),
+             ("service_pkt", "in_service", "optobj", "needs:service_pkt"),    # None or a Packet
+             ("service_pkt.flow_id", "service_flow", "Z", "needs:service_pkt"),
+             ("service_pkt.size", "service_size", "Z", "needs:service_pkt")]
+MON_ALIASES = [("service_pkt = self.scheduler.packet_in_service", "service_pkt")]
+
+
+def extracted_mq(repo):
+    import os
+    from vlib import translate as tr
+    base = os.path.join(repo, "onl", "scheduler", "base.py")
+    inl = [("add_packet_to_queue", base, "Scheduler")]
+    specs = [tr.FnSpec(base, "Scheduler", "add_packet_to_queue", "gen_Scheduler_add_packet_to_queue", reads=MQ_READS[:2]),
+             tr.FnSpec(base, "MultiQueueScheduler", "put", "gen_MultiQueueScheduler_put", reads=MQ_READS, effects=MQ_FX, inline=inl),
+             tr.FnSpec(os.path.join(repo, "onl", "scheduler", "sp.py"), "SP", "put", "gen_SP_put", reads=MQ_READS, effects=MQ_FX,
+                       inline=inl)]
+    return tr.gen_module("onl/scheduler/base.py: Scheduler.add_packet_to_queue, MultiQueueScheduler.put; onl/scheduler/sp.py: SP.put "
+                         "(add_packet_to_queue in place)", "mq_st", "m_", MQ_STATE, "mq_fx", MQ_CONS, specs)
+
+
+def extracted_schedmon(repo):
+    import os
+    from vlib import translate as tr
+    spec = tr.FnSpec(os.path.join(repo, "onl", "scheduler", "monitor.py"), "Monitor", "run", "gen_Monitor_sample_flow",
+                     reads=MON_READS, effects=MON_FX, aliases=MON_ALIASES, select="sample_loop_body")
+    return tr.gen_module("onl/scheduler/monitor.py: Monitor.run, the statements for ONE flow_id of the loop after each `yield`",
+                         None, "", [], "schedmon_fx", MON_CONS, [spec])
+
+
 class MQPart:
     name = "mq"
     kinds = ["sp", "rr", "wrr", "schedmon", "mq2"]
     serves = ["C12", "C13", "C15", "C08"]
     weight = 3
     coq_imports = ["From ONL Require Import Base.Cmp Elem.Packet Elem.StoreQ Elem.SchedBase Elem.SP Elem.RR Elem.WRR."]
-    props_files = {"C12": ["Props/C12_MQ.v"], "C13": ["Props/C13.v"], "C15": ["Props/C15_RR.v"], "C08": ["Props/C08_MQ.v"]}
+    props_files = {"C12": ["Props/C12_MQ.v", "Props/C12_BridgeMQ.v", "Props/C12_BridgeMon.v"], "C13": ["Props/C13.v"], "C15": ["Props/C15_RR.v"],
+                   "C08": ["Props/C08_MQ.v"]}
+
+    # ---- second tie: regenerate the translated bodies before the Coq build (fail closed) ----------------
+    def pre_build(self, prop_id):
+        if prop_id != "C12":
+            return
+        import os
+        from vlib import framework as fw
+        from vlib import translate as tr
+        tr.write_if_changed(os.path.join(fw.COQ, "Gen", "Extracted_mq.v"), extracted_mq(fw.REPO))
+        tr.write_if_changed(os.path.join(fw.COQ, "Gen", "Extracted_schedmon.v"), extracted_schedmon(fw.REPO))
+
     _gen = ("1-5 configured flows, SP priorities / WRR weights from small sets (equal priorities frequent), for SP in half of "
             "the cases a many-to-one flow2class map (1-3 classes, class ids different from the flow ids), RR flow lists "
             "(occasionally with a repeated flow), rates 2^9..2^16 bit/s with sizes so that 8*size/rate is dyadic and "
@@ -141,7 +206,12 @@ class MQPart:
            "(each logged kernel step must be an enabled action of the model), not proved",
            "the Monitor's dist() is replaced by a scripted sequence; its process is renamed so the harness can tell its "
            "events from the scheduler's"]
-    trusted_base = {"C12": _tb, "C13": _tb, "C15": _tb, "C08": _tb}
+    _tie = ["vlib/translate.py (Python ast, fail closed; tables above the part class in props/part_mq.py) regenerates "
+            "coq/Gen/Extracted_mq.v and Extracted_schedmon.v from Scheduler.add_packet_to_queue, MultiQueueScheduler.put, SP.put and "
+            "the per-flow statements of Monitor.run of the tree under test before every build; the C12_gen_* theorems "
+            "(Props/C12_BridgeMQ.v, C12_BridgeMon.v) bridge them to the SPut / SSample steps of the hand-written model; Monitor's loop over "
+            "all_flows() itself is not translated"]
+    trusted_base = {"C12": _tb + _tie, "C13": _tb, "C15": _tb, "C08": _tb}
     _as = ["workloads contain only packets of flows whose class is configured (SP: flow2class(flow) is a key of the priority "
            "table; RR/WRR: the flow is listed) with size >= 0, rate > 0 (a packet of an unconfigured class makes run() spin "
            "without yielding: outside C12's domain)",
